@@ -13,6 +13,7 @@
 //   k async of a block object created with DISPATCH_BLOCK_BARRIER
 //   p async_f then wait (scheduler-level) until that item has finished ("ping-pong")
 //   U suspend  R resume  (C06)   z the client thread sleeps 1 virtual ms (queue index ignored)
+//   r async an item that calls dispatch_suspend and dispatch_resume on its own queue from inside its body
 //   x async an item that blocks on a semaphore   y async an item that releases every x item
 //     (pool exhaustion: the x items park every pool thread; y is queued behind them)
 // program flags (before the queues, each followed by ';'):
